@@ -111,8 +111,14 @@ def number(rnd, holes=0.0, wild=False):
 
 
 def tree(rnd, depth, n, mix):
-    """ragged category tree of uniform depth: [[label, [children]], ...]"""
-    return [[pick(rnd, mix), tree(rnd, depth - 1, rnd.choice([1, 1, 2, 3]), mix) if depth > 1 else []] for _ in range(n)]
+    """ragged category tree of uniform depth: [[label, [children]], ...].  A label '@D<iso date>' stands for a datetime.date
+    (quarters / months as the upper level of a date hierarchy): "dates as the decimal text of the serial date"."""
+    return [[("@D" + rnd.choice(DATES[2:])) if rnd.random() < 0.12 else pick(rnd, mix), tree(rnd, depth - 1, rnd.choice([1, 1, 2, 3]), mix) if depth > 1 else []] for _ in range(n)]
+
+
+def tree_label(lab, date1904=False):
+    """the text a tree label must be cached as (a date: its serial as General shows it)"""
+    return "%d" % serial(to_date(lab[2:]), date1904) if isinstance(lab, str) and lab.startswith("@D") else lab
 
 
 DATES = ["1899-12-30", "1899-12-31", "1900-01-01", "1900-02-27", "1900-02-28", "1900-03-01", "1900-03-02", "1904-01-01", "1850-06-15", "1999-12-31", "2016-12-27", "2038-01-19"]
@@ -203,7 +209,8 @@ def build_data(desc):
     if cats["kind"] == "multi":
         def add(parent, nodes, top):
             for lab, kids in nodes:
-                add(parent.add_category(lab) if top else parent.add_sub_category(lab), kids, False)
+                lab_ = to_date(lab[2:]) if isinstance(lab, str) and lab.startswith("@D") else lab
+                add(parent.add_category(lab_) if top else parent.add_sub_category(lab_), kids, False)
 
         add(cd, cats["tree"], True)
     else:
@@ -233,6 +240,7 @@ def expected(desc, date1904=False):
 
         def walk(nodes, path, lvl):
             for lab, kids in nodes:
+                lab = tree_label(lab, date1904)
                 start = len(flat)
                 if kids:
                     walk(kids, path + (lab,), lvl + 1)
